@@ -212,6 +212,11 @@ _more("C18", "Since round 4: EVERY non-linear element operator is interpreted en
 _more("C19", "Since round 4: a function given dt passes it to every callee that takes dt (R19.14); in a convergence loop the committed state handed to Integrate is loop-invariant (R19.15); zero dt reaching a division (R19.13, known finding F44); snapshot of the elastic law in Behavior (R19.12, known finding F42); the internal variables do not survive a mesh replacement (R14.19, repaired F49).")
 _more("C20", "Since round 4: the save / load round trip distinguishes the owned nodes from the nodes of the part (R20.8 stub completed).")
 
+_more("C03", "The complex branch of the cached-pattern assembly (bincount of the real and of the imaginary parts) is interpreted with a formal imaginary unit: complex matrix and vector slots equal the scatter-add of complex element entries (R3.9).")
+_more("C08", "The bounding-box preselection of the point location returns every coordinate inside the element's bounds for integer lattices in image order, x-major order and shuffled, and for floats, far bounds included (R8.16, repaired F54).")
+_more("C13", "Forms with a complex coefficient keep their imaginary part (R13.8, complex kind, repaired F55).")
+_more("C17", "The 3-D closed-form eigen-decomposition is interpreted in exact arithmetic on Q diag(a, b, c) Q^T with a rational rotation and every repetition pattern, mixed patterns inside one element: eigenvalues sorted, projectors rank-one orthogonal idempotents resolving the tensor (R17.12); projP equals the derivative of the positive part built from the known eigenvectors, projP + projM == identity (R17.13); every arccos / arcsin argument of the model is clipped to [-1, 1] (R17.14) (repaired F56; the former known findings F10 are repaired by the same commit).")
+
 # techniques as of DESIGN 7.8 (the deciding methods actually used)
 def _tech(pid, text):
     CHECKS[pid]["technique"] = text
